@@ -52,6 +52,14 @@ PROGRAMS = [
     ("def test(p: Parameter[bool], a: bool, b: bool) -> bool:\n    p = p ^ a\n    p = p and b\n    return p", dict(p=[False, True])),
     ("def test(k: Parameter[int], a: Qint[2]) -> Qint[4]:\n    k = k + a\n    k = k + k\n    return k", dict(k=[0, 1, 2, 3])),
     ("def test(c: Parameter[Qint[2]], a: Qint[2]) -> Qint[2]:\n    for i in range(2):\n        c = c + a\n    return c", dict(c=[0, 1, 3])),
+    # a scalar parameter read and THEN updated inside a loop body (the read of the next iteration sees the update);
+    # the update always involves a typed value: arithmetic between a bound integer and literals alone (k = k + 1)
+    # is typed at the literal's narrowest width by the library while the shadow run computes it on plain ints
+    ("def test(c: Parameter[bool], a: bool, b: bool) -> bool:\n    r = False\n    for x in [a, b]:\n        r = r ^ (x and c)\n        c = not c\n    return r", dict(c=[True, False])),
+    ("def test(k: Parameter[int], a: Qint[2]) -> Qint[4]:\n    s = Qint4(0)\n    for i in range(3):\n        s = s + k + a\n        k = k + a\n    return s", dict(k=[0, 1, 2, 5])),
+    ("def test(k: Parameter[Qint[2]], a: Qint[2], b: bool) -> Qint[2]:\n    s = a\n    for i in range(2):\n        if b:\n            s = s + k\n        k = k + a\n    return s", dict(k=[0, 1, 3])),
+    ("def test(p: Parameter[bool], q: Parameter[bool], a: bool, b: bool, c: bool) -> bool:\n    r = a\n    for x in [a, b, c]:\n        for y in [b, c]:\n            r = r ^ (x and p) ^ (y or q)\n            p = q\n        q = not q\n    return r",
+     dict(p=[True, False], q=[True, False])),
     # parameterised functions that call other compiled functions (defs=): every bind re-binds the callee
     ("def test(c: Parameter[bool], a: Qint[2]) -> Qint[2]:\n    return g(a) if c else a", dict(c=[True, False]),
      ["def g(a: Qint[2]) -> Qint[2]:\n    return a + 1"]),
@@ -179,6 +187,19 @@ def task(job):
             except BaseException as e:
                 out["rejected"] += 1
                 out.setdefault("reject_why", []).append(f"{type(e).__name__}: {e}"[:120])
+                # a bind() that raises although earlier binds of this object succeeded: does a FRESH unbound
+                # object built from the same source accept the same values?  Then the object was altered.
+                if out["binds"] > 0:
+                    try:
+                        fresh = qlassf(src, defs=[qlassf(d, to_compile=False) for d in defs_src], to_compile=False)
+                        fresh.bind(**dict(kw))
+                        out["fails"].append(dict(kind="bind() raises on an object that was bound before, while a fresh unbound object "
+                                                      "built from the same source accepts the same values (the unbound object was altered)",
+                                                 binding=repr(kw), error=f"{type(e).__name__}: {e}"[:160]))
+                    except progs._Timeout:
+                        raise
+                    except BaseException:
+                        pass
                 continue
             finally:
                 if fun_coq is not None:
